@@ -1,0 +1,39 @@
+package db
+
+// SQLite matches the names of tables, indexes, columns, types and collations
+// without regard to the case of the ASCII letters, and only those: "é" and
+// "É" are different names. strings.ToLower and friends fold too much.
+
+func lowerASCII(s string) string {
+	for i := 0; i < len(s); i++ {
+		if 'A' <= s[i] && s[i] <= 'Z' {
+			b := []byte(s)
+			for ; i < len(b); i++ {
+				if 'A' <= b[i] && b[i] <= 'Z' {
+					b[i] += 'a' - 'A'
+				}
+			}
+			return string(b)
+		}
+	}
+	return s
+}
+
+func upperASCII(s string) string {
+	for i := 0; i < len(s); i++ {
+		if 'a' <= s[i] && s[i] <= 'z' {
+			b := []byte(s)
+			for ; i < len(b); i++ {
+				if 'a' <= b[i] && b[i] <= 'z' {
+					b[i] -= 'a' - 'A'
+				}
+			}
+			return string(b)
+		}
+	}
+	return s
+}
+
+func equalFoldASCII(a, b string) bool {
+	return len(a) == len(b) && lowerASCII(a) == lowerASCII(b)
+}
